@@ -1,4 +1,6 @@
 mod core;
+mod crash;
+mod crashmc;
 mod exec;
 mod interpose;
 mod model;
